@@ -2,7 +2,8 @@
    format as harness/src/bin/c10.rs plus, for S and M cases, a fourth section with the item hashes:
      HEAD | ENTRIES | PROG | KEYHEX:HASHDEC ...
    Output: the same tokens as the harness, except that the setsum field of meta: is `#n` (the
-   number of items summed) because the model does not compute SHA3. *)
+   number of items summed) because the model does not compute SHA3, and that f: carries the bytes
+   of the filter block only (the harness prints the whole file). *)
 open Gen_table
 
 let rec pos_of_int (i : int) : positive =
@@ -154,10 +155,11 @@ let run_line (line : string) : string =
     (match r.sr_seal with
      | Err e -> String.concat " " (show_rej r.sr_rej @ [ "seal:" ^ code e ])
      | Ok () ->
-       let flt =
-         if Sys.getenv_opt "C10_FILTER" <> None then
-           [ "filter:" ^ String.concat "," (List.map (fun b -> String.concat "." (List.map dec_of_n b)) r.sr_filter) ]
-         else [] in
+       (* the filter block's bytes: eight little-endian u32 per block *)
+       let le32 w =
+         let x = int_of_n w in
+         Printf.sprintf "%02x%02x%02x%02x" (x land 255) ((x lsr 8) land 255) ((x lsr 16) land 255) ((x lsr 24) land 255) in
+       let flt = [ "f:" ^ String.concat "" (List.map (fun b -> String.concat "" (List.map le32 b)) r.sr_filter) ] in
        String.concat " "
          (show_rej r.sr_rej @ [ "seal:ok"; show_meta r.sr_meta ] @ flt @ List.map show_out r.sr_outs))
   | "M" ->
